@@ -95,7 +95,10 @@ func (t *Trie) BuildFailureLinks() {
 // Match returns true if the text contains any of the patterns in the trie.
 func (t *Trie) Match(text string) bool {
 	node := &t.root
-	for _, v := range text {
+	for i := 0; i < len(text); {
+		v, size := decodeRune(text, i)
+		i += size
+
 		idx := t.index(node.children, v)
 		for node != &t.root && idx < 0 {
 			node = node.fail
@@ -178,7 +181,10 @@ func (t *Trie) Replace(text string, repl string) string {
 // PrefixSearch returns all patterns that have the key as prefix.
 func (t *Trie) PrefixSearch(key string) []string {
 	node := &t.root
-	for _, v := range key {
+	for i := 0; i < len(key); {
+		v, size := decodeRune(key, i)
+		i += size
+
 		idx := t.index(node.children, v)
 		if idx < 0 {
 			return nil
@@ -213,7 +219,7 @@ func (t *Trie) PrefixSearch(key string) []string {
 		stack = stack[:last]
 
 		buf.Truncate(int(cur.depth))
-		buf.WriteRune(cur.r)
+		writeRune(&buf, cur.r)
 		if cur.node.isEnd {
 			ret = append(ret, buf.String())
 		}
@@ -233,7 +239,10 @@ func (t *Trie) FuzzySearch(key string) []string {
 	}
 
 	node := &t.root
-	for _, v := range key {
+	for i := 0; i < len(key); {
+		v, size := decodeRune(key, i)
+		i += size
+
 		idx := t.index(node.children, v)
 		for node != &t.root && idx < 0 {
 			node = node.fail
@@ -274,7 +283,7 @@ func (t *Trie) FuzzySearch(key string) []string {
 			stack = stack[:last]
 
 			buf.Truncate(int(cur.depth))
-			buf.WriteRune(cur.r)
+			writeRune(&buf, cur.r)
 			if cur.node.isEnd {
 				ret = append(ret, buf.String())
 			}
@@ -374,13 +383,28 @@ func (t *Trie) findChildIndex(children []childNode, val rune) int {
 	return low
 }
 
+// invalidByteBase marks bytes that are not part of valid UTF-8: byte b is handled as
+// the value invalidByteBase+b, so that matching stays byte-exact.
+const invalidByteBase = utf8.MaxRune + 1
+
 func decodeRune(s string, i int) (rune, int) {
 	if b := s[i]; b < utf8.RuneSelf {
 		return rune(b), 1
 	}
 
 	r, size := utf8.DecodeRuneInString(s[i:])
+	if r == utf8.RuneError && size == 1 {
+		return invalidByteBase + rune(s[i]), 1
+	}
 	return r, size
+}
+
+func writeRune(buf *bytes.Buffer, r rune) {
+	if r >= invalidByteBase {
+		buf.WriteByte(byte(r - invalidByteBase))
+		return
+	}
+	buf.WriteRune(r)
 }
 
 type trieFrame struct {
